@@ -106,8 +106,8 @@ QSem(c, o) ==
       ELSE IF o.op = "stack" /\ o.aux # "plain" /\ Dev_C05_StackFallback THEN Raise("TypeError")
       ELSE Plain(c, fs))
   ELSE IF c.kind = "QBits" THEN
-     (IF o.op \in {"detach", "contiguous"} THEN c          \* contiguous() of a contiguous tensor returns self
-      ELSE IF o.op = "copy_" /\ Dev_C05_CopyPlain THEN Raise("AttributeError")
+     (IF o.op \in {"detach", "contiguous", "clone"} THEN c   \* contiguous() of a contiguous tensor returns self; clone keeps the class
+      ELSE IF o.op = "copy_" THEN c                           \* falls back on a temporary: the destination keeps its values (known finding)
       ELSE IF o.op = "to" THEN (IF o.dtype # c.dtype THEN RaiseW("ValueError", "refusal") ELSE c)
       ELSE IF o.op = "stack" /\ Dev_C05_StackFallback THEN Plain(c, fs)
       ELSE Plain(c, fs))
